@@ -34,9 +34,9 @@ for d in sorted(glob.glob('/verif/seeded/C*-%s*' % rnd)):
 c1 = sum(1 for n, r in first.items() if any(v[0] == '1' for v in r.values()))
 merged = {n: {**first.get(n, {}), **later.get(n, {})} for n in set(first) | set(later)}
 c2 = sum(1 for n, r in merged.items() if any(v[0] == '1' for v in r.values()))
-out = (("# Second" if rnd == "n" else "# Third") + ", independent round of seeded changes\n\nWritten by fresh sub-agents (property text + scratch worktree only) AFTER the checks had been strengthened against the earlier round(s); "
+out = ({"n":"# Second","p":"# Third","q":"# Fourth"}[rnd] + ", independent round of seeded changes\n\nWritten by fresh sub-agents (property text + scratch worktree only) AFTER the checks had been strengthened against the earlier round(s); "
        "stored and committed before any check was run against them. The first column is therefore an unbiased sample of what the checks catch.\n\n"
        f"First run: {c1} of {len(rows)} caught. After strengthening: {c2} of {len(rows)}.\n\n"
        "| seeded change | what it changes | first run | after strengthening |\n|---|---|---|---|\n" + "\n".join(rows) + "\n")
-open('/verif/seeded/RESULTS_round%s.md' % {'n':'2','p':'3'}[rnd], 'w').write(out)
+open('/verif/seeded/RESULTS_round%s.md' % {'n':'2','p':'3','q':'4'}[rnd], 'w').write(out)
 print(f"first run {c1}/{len(rows)}, after {c2}/{len(rows)}")
